@@ -54,7 +54,7 @@ def gen_cases(ctx):
             nmeas = sum(1 for g in gates if g["g"] == "meas")
             cn = n if i % 9 != 8 else n + rng.choice([-1, 1])       # width mismatch between circuit and state
             if cn < 1: cn = n + 1
-            cases.append({"op": "circuit", "mode": "exec", "n": n, "cn": cn, "v": rand_vec(rng, n, "normalised"), "gates": gates,
+            cases.append({"op": "circuit", "mode": "exec", "n": n, "cn": cn, "v": rand_vec(rng, n, "normalised" if i % 4 else "dominant"), "gates": gates,
                           "draws": [float2bits(rng.choice([0.03, 0.2, 0.41, 0.5, 0.66, 0.83, 0.97])) for _ in range(nmeas)],
                           "split": rng.randrange(0, L + 1), "thr": rng.choice([10, 1])})
     # neighbouring gates of one kind on the same set of qubits, identical and with the roles of the qubits exchanged (cnot(0->1) then
